@@ -165,6 +165,11 @@ public:
     auto phase1 = shutdownPhase1_SignalShutdown();
     if (phase1.wasAlreadyShutdown)
     {
+      // shutdown()/stop() joined the workers it found, but a submission that was
+      // accepted before the shutdown can insert its new worker into _threads
+      // afterwards. Join what is left: destroying a joinable std::thread would
+      // call std::terminate.
+      shutdownPhase4_JoinThreads();
       return;
     }
 
